@@ -766,3 +766,68 @@ Module Ex.
     verify_proof unit yes yes O c1 (ps good) smt_proof_type = Err e_proof_not_found.
   Proof. vm_compute. auto 10. Qed.
 End Ex.
+
+(* ------------------------------------------------------------------ *)
+(* ---------- entries with their raw values ----------
+   The leaves of the merklizer's tree are (path key, enc value) where enc is the
+   value encoding (integers as themselves, strings through HashBytes, ...).  enc is
+   an arbitrary function here; no injectivity is assumed: a pair of different values
+   with equal encodings is an explicit disjunct. *)
+Section Values.
+  Variable V : Type.
+  Variable V_eq_dec : forall x y : V, {x = y} + {x <> y}.
+  Variable enc : V -> Z.
+
+  Definition ValueCollision : Prop := exists x y : V, x <> y /\ enc x = enc y.
+  Definition leaf_of (kx : Z * V) : Z * Z := (fst kx, enc (snd kx)).
+
+  Lemma map_leaf_eq : forall l1 l2 : list (Z * V),
+    map leaf_of l1 = map leaf_of l2 -> l1 = l2 \/ ValueCollision.
+  Proof.
+    induction l1 as [|[k x] l1 IH]; intros [|[k' y] l2] H; cbn [map] in H; try discriminate.
+    - left. reflexivity.
+    - inversion H as [[Hk He Ht]]. cbn [fst snd] in *. subst k'.
+      destruct (V_eq_dec x y) as [E|E].
+      + subst y. destruct (IH _ Ht) as [->|C]; [left; reflexivity|right; exact C].
+      + right. exists x, y. split; assumption.
+  Qed.
+
+  Theorem perm_leaves_values : forall raw raw' : list (Z * V),
+    Permutation (map leaf_of raw) (map leaf_of raw') ->
+    Permutation raw raw' \/ ValueCollision.
+  Proof.
+    intros raw raw' H.
+    destruct (Permutation_map_inv _ _ H) as (l3 & E & P).
+    destruct (map_leaf_eq _ _ E) as [->|C]; [|right; exact C].
+    left. symmetry. exact P.
+  Qed.
+
+  Theorem binding_sound_entries_values :
+    forall (hl hm : Z -> Z -> Z) (maxlev : nat) O c c' cl mz mz' (raw raw' : list (Z * V)) t t',
+    verify_binding O c cl = Ok tt -> verify_binding O c' cl = Ok tt ->
+    c_mz c = Some mz -> c_mz c' = Some mz' ->
+    get_merklized cl <> mrk_none ->
+    add_all maxlev (map leaf_of raw) = Ok t -> add_all maxlev (map leaf_of raw') = Ok t' ->
+    root hl hm t = m_root mz -> root hl hm t' = m_root mz' ->
+    Permutation raw raw' \/ ValueCollision \/ Collision hl hm.
+  Proof.
+    intros hl hm maxlev O c c' cl mz mz' raw raw' t t' H H' Hm Hm' Hf Ha Ha' Hr Hr'.
+    destruct (binding_sound_entries hl hm maxlev O c c' cl mz mz' _ _ t t' H H' Hm Hm' Hf Ha Ha' Hr Hr') as [P|C].
+    - destruct (perm_leaves_values _ _ P) as [P'|C]; [left; exact P'|right; left; exact C].
+    - right. right. exact C.
+  Qed.
+End Values.
+
+(* non-vacuity: with an encoding that forgets trailing zeros (as HashBytes' zero padding of
+   the last block does for NUL bytes) two different value lists give the same leaves *)
+Example value_collision_ex :
+  let enc := fun l : list Z => fold_right (fun d acc => d + 256 * acc) 0 l in
+  ValueCollision (list Z) enc /\
+  Permutation (map (leaf_of (list Z) enc) [(7, [65; 66])]) (map (leaf_of (list Z) enc) [(7, [65; 66; 0])]) /\
+  ~ Permutation [(7, [65; 66])] [(7, [65; 66; 0])].
+Proof.
+  cbn zeta. split; [|split].
+  - exists [65; 66], [65; 66; 0]. split; [discriminate|reflexivity].
+  - apply Permutation_refl.
+  - intros P. apply Permutation_length_1_inv in P. discriminate.
+Qed.
